@@ -45,7 +45,11 @@ CHECKS['C13'] = dict(
         quick=[dict(tu='c13_bmp', group='seeds', shards=10), dict(tu='c13_pnm', group='seeds', shards=3),
                dict(tu='c13_targa', group='seeds', shards=3), dict(tu='c13_png_a', group='seeds', shards=3), dict(tu='c13_png_b', group='seeds', shards=3),
                dict(tu='c13_jpeg', group='seeds', shards=2), dict(tu='c13_tiff_a', group='seeds', shards=4),
-               dict(tu='c13_tiff_b', group='seeds', shards=4), dict(tu='c13_tiff_c', group='seeds', shards=4)],
+               dict(tu='c13_tiff_b', group='seeds', shards=4), dict(tu='c13_tiff_c', group='seeds', shards=4),
+               # the repository's own sample files (test/extension/io/images): same oracles, files not written by this machinery
+               dict(tu='c13_bmp', group='samples', shards=6), dict(tu='c13_pnm', group='samples', shards=2), dict(tu='c13_targa', group='samples', shards=2),
+               dict(tu='c13_png_a', group='samples', shards=2), dict(tu='c13_png_b', group='samples', shards=4), dict(tu='c13_jpeg', group='samples', shards=2),
+               dict(tu='c13_tiff_c', group='samples')],
         thorough=[dict(tu='c13_bmp', group='seeds', bounds=dict(allrect=1), shards=16), dict(tu='c13_pnm', group='seeds', bounds=dict(allrect=1), shards=6),
                   dict(tu='c13_targa', group='seeds', bounds=dict(allrect=1), shards=6), dict(tu='c13_png_a', group='seeds', bounds=dict(allrect=1), shards=5),
                   dict(tu='c13_png_b', group='seeds', bounds=dict(allrect=1), shards=5),
@@ -55,6 +59,6 @@ CHECKS['C13'] = dict(
                   dict(tu='c13_targa', group='samples', shards=2), dict(tu='c13_png_a', group='samples', shards=2), dict(tu='c13_png_b', group='samples', shards=4),
                   dict(tu='c13_jpeg', group='samples', shards=2), dict(tu='c13_tiff_a', group='samples'), dict(tu='c13_tiff_b', group='samples'),
                   dict(tu='c13_tiff_c', group='samples')]),
-    witnesses_required=dict(quick=_c13_witness, thorough=_c13_witness + ['sample_files']),
+    witnesses_required=dict(quick=_c13_witness + ['sample_files'], thorough=_c13_witness + ['sample_files']),
     deadline=dict(quick=900, thorough=5400),
 )
